@@ -333,9 +333,11 @@ def _fresh_main():
   json.dump(_observe(), sys.stdout)
 
 
-def _kinds(case):
-  return ','.join(sorted({op['op'] + ('!' if op.get('interactive') else '')
-                          for op in case['history']}))
+def _const_kind(consts):
+  names = list(consts)
+  if any(a != b and a.endswith('.' + b) for a in names for b in names):
+    return 'shadowing'
+  return 'plain' if names else 'none'
 
 
 def check(case):
@@ -357,7 +359,8 @@ def _check(case):
   except Exception as e:   # pylint: disable=broad-except
     return [{'clause': 'clear_total', 'expected': 'clear_config returns normally',
              'observed': '%s: %s' % (type(e).__name__, str(e)[:120]),
-             'signature': 'clear_total exc=%s cc=%s ops=%s' % (type(e).__name__, cc, _kinds(case))}]
+             'signature': 'clear_total exc=%s cc=%s constants=%s' % (
+                 type(e).__name__, cc, _const_kind(consts))}]
   if cc:
     consts = {}
   got = json.loads(json.dumps(_observe()))   # same normal form as the fresh interpreter's
